@@ -96,4 +96,21 @@ theorem code_injection_monotone (L n : Nat) (p0 rate : Rat) (hr : 0 ≤ rate) (i
 
 example : Code.InjectionReservoirPressurePredictor 2 2 100 4 = [100, 102, 104, 106] := by decide +kernel
 
+/-- `ReservoirPressurePredictor` as it stands in the source — fill, early return at 100 %, `int(…)`, the loop and its `break` — is the model
+`resPressure`, for every lifetime, steps per year and all rational pressures / percentages / rates with a non-negative step count
+(`int` truncates, the model floors; Python raises `ZeroDivisionError` where the step count is 0 — there both sides divide by 0 in `Rat`) -/
+theorem code_ReservoirPressurePredictor_is_model (L n : Nat) (p0 pct rate : Rat) (hnn : 0 ≤ (100 / rate) * (n : Rat)) :
+    Code.ReservoirPressurePredictor (L : Int) (n : Int) p0 pct rate = resPressure L n p0 pct rate :=
+  code_resPressure_eq L n p0 pct rate hnn
+
+/-- the source as written: linear decline at the stated depletion rate down to hydrostatic, where it stays -/
+theorem code_pressure_closed (L n : Nat) (p0 pct rate : Rat) (hp : pct ≠ 100) (hnn : 0 ≤ (100 / rate) * (n : Rat))
+    (hd : 0 ≤ (p0 * (pct / 100) - p0) / ((((100 / rate) * (n : Rat)).floor : Int) : Rat)) (t : Nat) (ht : t + 1 < L * n) :
+    (Code.ReservoirPressurePredictor (L : Int) (n : Int) p0 pct rate).getD (t + 1) 0 =
+      max p0 (p0 * (pct / 100) - (p0 * (pct / 100) - p0) / ((((100 / rate) * (n : Rat)).floor : Int) : Rat) * ((t + 1 : Nat) : Rat)) := by
+  rw [code_resPressure_eq L n p0 pct rate hnn]; exact resPressure_closed L n p0 pct rate hp hd t ht
+
+/-- 150 % overpressure, 50 %/yr, 2 steps per year: 1500, 1375, 1250, 1125, then hydrostatic (the `break`) -/
+example : Code.ReservoirPressurePredictor 4 2 1000 150 50 = [1500, 1375, 1250, 1125, 1000, 1000, 1000, 1000] := by decide +kernel
+
 end GeoVerif.C15
